@@ -10,6 +10,7 @@ the virtual-time SimLoop, with one fault from the ``f`` stream:
   f[1] api    0 render_async / render()   1 generate_async / generate()
   f[2] k
   f[3] exception kind (0 Exception subclass, 1 BaseException subclass)
+  f[4] mode cancel only: a second cancellation j steps after the first (0 = none)
 
 A work unit takes one workload, runs it clean to measure chunks C, steps S and
 data events E, then enumerates the fault positions (all of them in the thorough
@@ -102,6 +103,7 @@ def run(tape: Tape) -> Outcome:
     api = tape.draw(2, "f")
     k = tape.draw(4096, "f")
     exck = tape.draw(2, "f")
+    again = tape.draw(5, "f")  # mode cancel: a second cancellation `again` steps after the first (0 = none)
 
     fault_exc = None
     if mode in (3, 5):
@@ -185,6 +187,10 @@ def run(tape: Tape) -> Outcome:
                             if owner == "render" and n == k and not rt.done():
                                 info["cancel_sent"] = True
                                 rt.cancel()
+                            elif owner == "render" and again and n == k + again and not rt.done():
+                                # cancelled again while it is unwinding / closing its generators
+                                info["cancel_again"] = True
+                                rt.cancel()
                         loop.on_step = on_step
                     try:
                         r = ("ok", await rt)
@@ -243,6 +249,8 @@ def run(tape: Tape) -> Outcome:
     out.count("other_asyncgens_started", sum(lp.agens_other for lp in loops))
     out.count("other_asyncgens_gc_finalized", sum(lp.finalized_other for lp in loops))
     out.count("schedule_choices", sum(lp.choices for lp in loops))
+    if info.get("cancel_again"):
+        out.count("fault_fired_second_cancellation_during_unwinding")
     if fired:
         out.count("fault_fired_" + MODES[mode])
         if mode in (3, 5):
@@ -255,7 +263,8 @@ def run(tape: Tape) -> Outcome:
     out.decoded = {
         "templates": P.templates, "entry": entry, "autoescape": ae, "loopcontrols": lc, "noise_tasks": noise,
         "fault": {"mode": MODES[mode], "api": ["render_async", "generate_async"][api], "k": k,
-                  "exc": ["Exception", "BaseException"][exck] if mode in (3, 5) else None, "fired": bool(fired)},
+                  "exc": ["Exception", "BaseException"][exck] if mode in (3, 5) else None, "fired": bool(fired),
+                  "second_cancel_after": again if mode == 2 else None},
         "clean_stats": {"chunks": info["chunks"], "render_task_steps": render_steps, "data_events": events.n},
         "result": res, "simulated_seconds": out.sim_time,
         "task_trace": [list(t)[:60] for t in trace],
@@ -314,6 +323,8 @@ def unit(index: int, seed: int, tier: str):
         if api == 1:
             plans += [[1, 1, k, 0] for k in range(0, st["chunks"] + 1)]
         plans += [[2, api, k, 0] for k in range(1, st["render_task_steps"] + 1)]
+        # (a second cancellation while unwinding is drawn by random tapes only: templates have no awaiting clean-up,
+        # a cancelled render finishes in its very next step, so enumerating (k, j) pairs found nothing to land on)
         for exck in (0, 1):
             plans += [[3, api, k, exck] for k in range(1, st["data_events"] + 1)]
         plans.append([4, api, 0, 0])
